@@ -482,55 +482,41 @@ Proof.
     + simpl. lia.
 Qed.
 
+(* since 6917604 two supports are united by the n-ary kernel like three or more: the union is canonical and
+   covers every member support, touching or not *)
 Lemma union_supports_cover sups :
-  Forall proper1 sups -> (forall A B, sups = [A; B] -> ~ touching A B) ->
+  Forall proper1 sups ->
   canonical (union_supports sups) /\ forall x, mem x (union_supports sups) = existsb (mem x) sups.
 Proof.
-  intros HP HT.
+  intros HP.
   assert (Gen : canonical (mk_iset_pairs (k_union_n (concat sups)))
                 /\ forall x, mem x (mk_iset_pairs (k_union_n (concat sups))) = existsb (mem x) sups).
   { pose proof (proper1_concat sups HP) as HF.
     rewrite mk_iset_canonical_id by (apply union_n_canonical; exact HF).
     split; [apply union_n_canonical; exact HF|].
     intros x. rewrite union_n_mem by exact HF. apply mem_concat. }
-  destruct sups as [|A [|B [|D r]]]; try exact Gen.
-  - (* one member *)
-    inversion HP as [|? ? HA _]; subst. cbn [union_supports existsb]. split; [apply proper1_canonical; exact HA|].
-    intros x. rewrite orb_false_r. reflexivity.
-  - (* two members *)
-    inversion HP as [|? ? HA HP']; subst. inversion HP' as [|? ? HB _]; subst.
-    cbn [union_supports existsb]. unfold iset_union.
-    assert (Hc : canonical (k_union A B)).
-    { destruct HA as [->|(a0 & a1 & Ha & ->)]; destruct HB as [->|(b0 & b1 & Hb & ->)].
-      - exact I.
-      - unfold k_union. simpl. lia.
-      - unfold k_union. simpl. lia.
-      - apply k_union_single_canonical; try assumption.
-        + intros E. apply (HT _ _ eq_refl). exists a0, a1, b0, b1. auto.
-        + intros E. apply (HT _ _ eq_refl). exists a0, a1, b0, b1. auto. }
-    rewrite mk_iset_canonical_id by exact Hc. split; [exact Hc|].
-    intros x. rewrite union_mem by (apply proper1_canonical; assumption).
-    rewrite orb_false_r. reflexivity.
+  destruct sups as [|A [|B r]]; try exact Gen.
+  (* one member *)
+  inversion HP as [|? ? HA _]; subst. cbn [union_supports existsb]. split; [apply proper1_canonical; exact HA|].
+  intros x. rewrite orb_false_r. reflexivity.
 Qed.
 
 Definition default_member (m : member) : Prop :=
   sortedZ (fst (snd m)) /\ snd (snd m) = first_last_support (fst (snd m)).
 
-(* TsGroup(dict) without a support: keys kept; every member with >= 2 distinct stamps keeps all of them,
-   provided the group is not a pair of members whose default supports touch *)
+(* TsGroup(dict) without a support: keys kept; every member with >= 2 distinct stamps keeps all of them *)
 Theorem mk_group_none_spec ms out G :
   mk_group ms None = Some (out, G) -> Forall default_member ms ->
-  (forall A B, map (fun m : member => snd (snd m)) ms = [A; B] -> ~ touching A B) ->
   map fst out = map fst ms
   /\ Forall2 (fun (m : member) (o : Z * list Z) =>
                 fst o = fst m /\ (nondegenerate (fst (snd m)) -> snd o = fst (snd m))) ms out.
 Proof.
-  intros HG HD HT. unfold mk_group in HG. cbv zeta in HG.
+  intros HG HD. unfold mk_group in HG. cbv zeta in HG.
   set (sups := map (fun m : member => snd (snd m)) ms) in *.
   assert (HP : Forall proper1 sups).
   { unfold sups. apply Forall_forall. intros A HA. apply in_map_iff in HA. destruct HA as (m & <- & Hm).
     rewrite Forall_forall in HD. destruct (HD m Hm) as [_ ->]. apply first_last_support_proper1. }
-  destruct (union_supports_cover sups HP HT) as [Hc Hm].
+  destruct (union_supports_cover sups HP) as [Hc Hm].
   change (map (fun m : Z * (list Z * iset) => snd (snd m)) ms) with sups in HG.
   destruct (union_supports sups) as [|I0 G0] eqn:EG; [discriminate|].
   inversion HG; subst out G. clear HG. split.
@@ -538,7 +524,7 @@ Proof.
   - assert (Hsub : forall m, In m ms -> forall x, mem x (snd (snd m)) = true -> mem x (I0 :: G0) = true).
     { intros m Hin x Hx. rewrite Hm. apply existsb_exists. exists (snd (snd m)). split; [|exact Hx].
       unfold sups. apply in_map_iff. exists m. split; [reflexivity|exact Hin]. }
-    clear Hm EG HT HP. remember (I0 :: G0) as GG eqn:EGG. clear EGG I0 G0.
+    clear Hm EG HP. remember (I0 :: G0) as GG eqn:EGG. clear EGG I0 G0.
     induction ms as [|m ms IH]; [constructor|].
     inversion HD as [|? ? Hd HD']; subst. cbn [map]. constructor.
     + cbn [fst snd]. split; [reflexivity|]. intros Hn. destruct Hd as [Hs He].
@@ -570,22 +556,17 @@ Definition jittered (p : (Z * list Z) * list Z) : list Z := sortZ (add_draws (sn
 
 Theorem jitter_group_free_spec s e g dss out G :
   jitter_group false s e g dss = Some (out, G) ->
-  no_touching_pair (map (fun p => first_last_support (jittered p)) (combine g dss)) ->
   map fst out = map (fun p : (Z * list Z) * list Z => fst (fst p)) (combine g dss)
   /\ Forall2 (fun (p : (Z * list Z) * list Z) (o : Z * list Z) =>
                 fst o = fst (fst p)
                 /\ (nondegenerate (jittered p) -> snd o = fst (jitter_ts false s e (snd (fst p)) (snd p))))
              (combine g dss) out.
 Proof.
-  intros H HT. unfold jitter_group in H.
+  intros H. unfold jitter_group in H.
   set (f := fun p : (Z * list Z) * list Z => (fst (fst p), mk_ts (sortZ (add_draws (snd (fst p)) (snd p))) None)) in *.
-  assert (Es : map (fun m : member => snd (snd m)) (map f (combine g dss))
-               = map (fun p => first_last_support (jittered p)) (combine g dss)).
-  { rewrite map_map. apply map_ext. intros p. unfold f, jittered. cbn [snd]. rewrite mk_ts_none. reflexivity. }
   destruct (mk_group_none_spec _ _ _ H) as [K M].
   - apply Forall_forall. intros m Hm. apply in_map_iff in Hm. destruct Hm as (p & <- & _).
     unfold f, default_member. cbn [fst snd]. rewrite mk_ts_none. cbn [fst snd]. split; [apply sortZ_sorted|reflexivity].
-  - unfold no_touching_pair in HT. rewrite Es. exact HT.
   - split.
     + rewrite K, map_map. reflexivity.
     + apply Forall2_map_l in M. eapply Forall2_impl'; [|exact M]. cbv beta.
@@ -669,7 +650,6 @@ Qed.
 Theorem shuffle_group_spec g perms out G :
   Forall2 valid_shuffle_input g perms ->
   shuffle_group g perms = Some (out, G) ->
-  (forall ms, shuffle_members g perms = Some ms -> no_touching_pair (map (fun m : member => snd (snd m)) ms)) ->
   map fst out = map fst g
   /\ Forall2 (fun (kt : Z * list Z) (o : Z * list Z) =>
                 fst o = fst kt
@@ -678,10 +658,10 @@ Theorem shuffle_group_spec g perms out G :
                     /\ length (snd o) = length (snd kt)
                     /\ Permutation (diffs (snd o)) (diffs (snd kt)))) g out.
 Proof.
-  intros HV H HT. unfold shuffle_group in H.
+  intros HV H. unfold shuffle_group in H.
   destruct (shuffle_members g perms) as [ms|] eqn:E; [|discriminate].
   destruct (shuffle_members_spec g perms ms HV E) as [D1 D2].
-  destruct (mk_group_none_spec ms out G H D1 (HT ms eq_refl)) as [K M].
+  destruct (mk_group_none_spec ms out G H D1) as [K M].
   assert (F : Forall2 (fun (kt : Z * list Z) (o : Z * list Z) =>
                 fst o = fst kt
                 /\ (nondegenerate (snd kt) ->
@@ -712,12 +692,13 @@ Proof.
   exists 1, [50], []. simpl. repeat split; auto.
 Qed.
 
-(* two members whose recomputed supports touch: jitunion leaves them touching, the IntervalSet
-   constructor trims 1 us off the earlier one, and a timestamp inside that microsecond is dropped *)
-Theorem group_recomputed_support_refuted_touching :
+(* two members whose recomputed supports touch.  BEFORE 6917604 the pairwise jitunion left the two intervals
+   touching, the IntervalSet constructor trimmed 1 us off the earlier one, and a timestamp inside that microsecond
+   was dropped: *)
+Theorem group_recomputed_support_touching_orig_refuted :
   exists g perms out G,
     Forall2 valid_shuffle_input g perms /\ Forall (fun kt => nondegenerate (snd kt)) g
-    /\ shuffle_group g perms = Some (out, G)
+    /\ shuffle_group_orig g perms = Some (out, G)
     /\ exists k ts ts', In (k, ts) g /\ In (k, ts') out /\ (length ts' < length ts)%nat.
 Proof.
   exists [(0, [0; 999500; 1000000]); (1, [1000000; 2000000])], [[0%nat; 1%nat]; [0%nat]],
@@ -728,6 +709,13 @@ Proof.
   exists 0, [0; 999500; 1000000], [0; 1000000]. simpl. repeat split; auto.
 Qed.
 
+(* ... the same input SINCE 6917604 (n-ary union also for two members): the supports merge into one interval and
+   every timestamp is kept *)
+Theorem group_recomputed_support_touching_kept :
+  shuffle_group [(0, [0; 999500; 1000000]); (1, [1000000; 2000000])] [[0%nat; 1%nat]; [0%nat]]
+  = Some ([(0, [0; 999500; 1000000]); (1, [1000000; 2000000])], [(0, 2000000)]).
+Proof. vm_compute. reflexivity. Qed.
+
 (* exceptions: a group whose members all have a single distinct timestamp has an empty union of supports
    and the TsGroup constructor raises *)
 Theorem group_recomputed_support_raises :
@@ -735,7 +723,8 @@ Theorem group_recomputed_support_raises :
   /\ jitter_group false 0 100 [(0, [10]); (1, [20; 21])] [[0]; [1; 0]] = None.
 Proof. vm_compute. repeat split. Qed.
 
-(* corollaries: any group that is not a PAIR of members is free of the touching exception *)
+(* special cases kept from before 6917604, when a PAIR of members with touching supports was an exception
+   (the hypothesis length g <> 2 is no longer needed: see jitter_group_free_spec / shuffle_group_spec) *)
 Corollary jitter_group_free_not2 s e g dss out G :
   length dss = length g -> length g <> 2%nat ->
   jitter_group false s e g dss = Some (out, G) ->
@@ -745,9 +734,8 @@ Corollary jitter_group_free_not2 s e g dss out G :
                 /\ (nondegenerate (jittered p) -> snd o = fst (jitter_ts false s e (snd (fst p)) (snd p))))
              (combine g dss) out.
 Proof.
-  intros Hl Hn H. destruct (jitter_group_free_spec s e g dss out G H) as [K M].
-  - apply no_touching_pair_len. rewrite map_length, combine_length. lia.
-  - split; [|exact M]. rewrite K. apply map_keys_combine. exact Hl.
+  intros Hl _ H. destruct (jitter_group_free_spec s e g dss out G H) as [K M].
+  split; [|exact M]. rewrite K. apply map_keys_combine. exact Hl.
 Qed.
 
 Corollary shuffle_group_not2 g perms out G :
@@ -761,10 +749,7 @@ Corollary shuffle_group_not2 g perms out G :
                     /\ length (snd o) = length (snd kt)
                     /\ Permutation (diffs (snd o)) (diffs (snd kt)))) g out.
 Proof.
-  intros HV Hn H. apply (shuffle_group_spec g perms out G HV H).
-  intros ms E. apply no_touching_pair_len. rewrite map_length.
-  destruct (shuffle_members_spec g perms ms HV E) as [_ D2].
-  rewrite <- (Forall2_length' _ _ _ D2). exact Hn.
+  intros HV _ H. exact (shuffle_group_spec g perms out G HV H).
 Qed.
 
 (* since 9bcff6e an empty member no longer makes shuffle raise: it stays empty, the others are shuffled *)
